@@ -17,6 +17,8 @@ type Frame struct {
 	inDevirt   bool
 	cutArgs    []*Val
 	cutHits    map[string]bool // cut point keys that attached to a call site
+	cutShift   map[string]int  // cut point key → ordinal it moved on to
+	cutTries   map[string]int
 	cutResult  *Val
 	fn         *ssa.Function
 	regs       map[ssa.Value]*Val
